@@ -84,7 +84,7 @@ def shrinker(inp):
 
 
 PROP = Prop(
-    pid="C19",
+    pid="C19", gen_files=["Export.v"],
     coq_props="theories/C19/Props.v",
     coq_run=["theories/C19/Run.v"],
     streams=[Stream("c19snapshot", "c19snapshot", n_quick=12, n_thorough=160, shards_thorough=4, valid=valid, shrinker=shrinker,
